@@ -62,6 +62,9 @@ func (loader *Loader) resetVisitedPathItemRefs() {
 	loader.visitedRefs = make(map[string]struct{})
 	loader.visitedPath = nil
 	loader.backtrack = make(map[string][]func(value any))
+	// the documents cache belongs to one load: a document cached by an earlier load (possibly one that failed while
+	// walking it) must not be returned as if it had been resolved
+	loader.visitedDocuments = nil
 }
 
 // LoadFromURI loads a spec from a remote URL
